@@ -2,7 +2,7 @@
 import miros.activeobject as AO
 import miros.event as EV
 import miros.singleton as SG
-from vt import detsched as ds
+from vt import detsched as ds, sysx
 
 ID = 'C30'
 ENGINE = 'detsched'
@@ -12,19 +12,33 @@ RULE = ('2-5 real threads make the FIRST request of a fresh SingletonDecorator o
         'construct ActiveObject() concurrently in a process-fresh state (which requests ActiveFabric, the fabric run event and the writer '
         'lazily); detsched switches threads at every bytecode boundary of SingletonDecorator.__call__ and every line of the constructors '
         '(seeded random and PCT schedules); all returned objects must be the same object and later requests must return it too. '
+        'The first cases of every run are SYSTEMATIC: for a scenario with 2 (thorough: 2-3) requesting threads every schedule with at most '
+        '1 (thorough: 2) preemptions is enumerated depth-first (vt/sysx.py); counters systematic_* say how many schedules were run and '
+        'how many scenarios were enumerated completely within the bound. '
         'distinct_nontrivial = distinct context-switch sequences in which >= 2 threads were inside __call__ at the same time')
 CASES = {'quick': 1500, 'thorough': 100000}
 BUDGET = {'quick': 40, 'thorough': 300}
-REQUIRE = {'runs': 800, 'overlapping_first_requests': 200, 'active_object_constructions': 100}
+REQUIRE = {'runs': 800, 'overlapping_first_requests': 200, 'active_object_constructions': 100, 'systematic_schedules': 300, 'systematic_scenarios_exhausted': 6}
+SYS = {'quick': (16, 1, 1500, 25.0), 'thorough': (96, 2, 40000, 200.0)}     # systematic cases, preemption bound, schedule cap, seconds cap (per scenario)
 ASSUME = ['fresh SingletonDecorator objects per run (same class as the module-level ones); module-level instances created at import are not re-raced']
 ANNOUNCE_CASES = True
 KLASSES = ['ActiveFabricSource', 'SignalSource', 'ReturnStatusSource', 'SourceThreadEvent', 'InstrumenationWriterClass']
 
 
 def run_case(ctx, n):
+  k = SYS[ctx.tier]
+  if n < k[0]:
+    sysx.explore(ctx, n, scenario, *k[1:])
+  else:
+    scenario(ctx, n)
+
+
+def scenario(ctx, n):
   rng = ctx.rng('case', n)
   kind = 'ao' if rng.random() < 0.15 else rng.choice(KLASSES)
   nthreads = rng.randint(2, 3) if kind == 'ao' else rng.randint(2, 5)
+  if getattr(ctx, 'small', False):
+    nthreads = 2 + (n % 2 if ctx.tier == 'thorough' and kind != 'ao' else 0)
   pol = dict(policy='random', p_switch=rng.choice([0.1, 0.3, 0.6])) if rng.random() < 0.6 else dict(policy='pct', pct_depth=rng.choice([2, 3]), pct_len=120)
   s = ds.Sched(seed=rng.randrange(1 << 30), max_steps=200000, **pol)
   ds.install(s, op_mods=[SG], line_mods=[AO, EV], line_funcs={AO: ['__init__'], EV: ['__init__']})
